@@ -14,6 +14,7 @@ package main
 import (
 	"encoding/json"
 	"fmt"
+	"strings"
 
 	"github.com/notaryproject/notation-go/verifharness/lib"
 	"github.com/notaryproject/notation-go/verifier"
@@ -73,6 +74,15 @@ var (
 		{S: "x509.subject:C=US,ST=WA,O=o6:Unit-A", Valid: true, kind: "x509", attrs: map[string]string{"C": "US", "ST": "WA", "O": "o6:Unit-A"}},
 		{S: "x509.subject:C=US,ST=WA,O=o6:Unit-B", Valid: true, kind: "x509", attrs: map[string]string{"C": "US", "ST": "WA", "O": "o6:Unit-B"}},
 		{S: "x509.subject:C=US,ST=WA,O=o:,,,", kind: "x509"},
+		// values given as RFC 4514 hex strings (#<BER>): not accepted in any attribute, decodable or not
+		{S: "x509.subject:C=US,ST=WA,O=#0c0441636d65", kind: "x509"},
+		{S: "x509.subject:C=#13025553,ST=WA,O=o", kind: "x509"},
+		{S: "x509.subject:C=US,ST=WA,O=o,CN=#04024869", kind: "x509"},
+		{S: "x509.subject:C=US,ST=WA,O=#zz", kind: "x509"},
+		// identities that differ in letter case only are different identities (values are compared exactly): no overlap
+		{S: "x509.subject:C=US,ST=WA,O=Acme", Valid: true, kind: "x509", attrs: map[string]string{"C": "US", "ST": "WA", "O": "Acme"}},
+		{S: "x509.subject:C=US,ST=WA,O=ACME,CN=build", Valid: true, kind: "x509", attrs: map[string]string{"C": "US", "ST": "WA", "O": "ACME", "CN": "build"}},
+		{S: "x509.subject:C=us,ST=WA,O=Acme,CN=build", Valid: true, kind: "x509", attrs: map[string]string{"C": "us", "ST": "WA", "O": "Acme", "CN": "build"}},
 		{S: "x509.subject:C=US,ST=WA,O=o:x,CN=a+OU=b", kind: "x509"},
 		{S: "x509.subject:C=US,ST=WA,O=o:x,C=DE", kind: "x509"},
 		{S: "x509.subject:C=US,ST=WA:x", kind: "x509"},
@@ -324,6 +334,18 @@ func genStmt(rng *lib.Rand, pv int) stmt {
 		}
 		if rng.Intn(4) == 0 {
 			s.IDs = []tagged{idsV[0]}
+		} else if rng.Intn(12) == 0 {
+			// two or three identities that would overlap if values were compared without regard to letter case
+			var twins []tagged
+			for _, t := range idsV {
+				if t.Valid && t.kind == "x509" && strings.EqualFold(t.attrs["O"], "acme") {
+					twins = append(twins, t)
+				}
+			}
+			pm := rng.Perm(len(twins))
+			for k := 0; k < 2+rng.Intn(len(twins)-1); k++ {
+				s.IDs = append(s.IDs, twins[pm[k]])
+			}
 		} else {
 			for i, n := 0, rng.Intn(3); i <= n; i++ {
 				s.IDs = append(s.IDs, pick(rng, idsV[1:], pv))
